@@ -7,6 +7,6 @@ git -C /repo worktree add -q --detach $WT HEAD || exit 3
 [ -f /repo/python/digital_rf/_version.py ] && cp /repo/python/digital_rf/_version.py $WT/python/digital_rf/
 git -C $WT apply $S/patch.diff || { echo "patch does not apply"; git -C /repo worktree remove --force $WT; exit 3; }
 for c in "$@"; do
-  (cd /verif && VERIF_REPO=$WT timeout 3000 ./check $c quick > /tmp/seedck_$(basename $S)_$c.log 2>&1; echo "seed $(basename $S) check $c exit $?"; grep -E "^VIOLATION|^KNOWN|quick:" /tmp/seedck_$(basename $S)_$c.log | cut -c1-220)
+  (cd /verif && VERIF_REPO=$WT VERIF_SEED_OUT=/tmp/seedck_out timeout 3000 ./check $c quick > /tmp/seedck_$(basename $S)_$c.log 2>&1; echo "seed $(basename $S) check $c exit $?"; grep -E "^VIOLATION|^KNOWN|quick:" /tmp/seedck_$(basename $S)_$c.log | cut -c1-220)
 done
 git -C /repo worktree remove --force $WT
